@@ -103,6 +103,21 @@ Theorem C11_fee_disposal_constructs : forall a id, 0 < i_spot a -> 0 < i_crypto_
             o_crypto_out_with_fee o = i_crypto_fee a /\ o_fiat_fee o = dmul (g (i_crypto_fee a)) (g (i_spot a)).
 Proof. exact fee_out_spec. Qed.
 
+(** refuted half (finding F14): an acquisition that constructs, has a crypto fee, and whose split fails -- while the same
+    row without the fee constructs.  [expected] returns Err for such rows, so they are outside the main theorem. *)
+Theorem C11_dust_split_refuted :
+  exists raw tx, mk_in raw = Ok tx /\ 0 < i_crypto_fee tx /\ ri_fiat_in_no_fee raw = None /\ split_in tx = Err EValue /\
+                 mk_in {| ri_row := ri_row raw; ri_ts := ri_ts raw; ri_exch := ri_exch raw; ri_holder := ri_holder raw; ri_type := ri_type raw;
+                          ri_spot := ri_spot raw; ri_crypto_in := ri_crypto_in raw; ri_crypto_fee := None; ri_fiat_in_no_fee := None;
+                          ri_fiat_in_with_fee := None; ri_fiat_fee := None |} <> Err EValue.
+Proof. exact dust_split_refuted. Qed.
+
+(** ... and that is the only way: with fiat values positive at 13 decimals the split succeeds *)
+Theorem C11_split_succeeds : forall a,
+  dgtb (i_fiat_in_no_fee a) dzero = true -> dgtb (i_fiat_in_with_fee a) dzero = true -> dgeb (i_fiat_fee a) dzero = true ->
+  exists a', split_in a = Ok a'.
+Proof. exact split_in_ok. Qed.
+
 (** the field ids / mandatory / numeric parameter lists the model uses are those of the constructors in the source *)
 Theorem C11_source_tables :
   gen_in_mandatory = [0; 1; 2; 3; 4; 5; 6] /\ gen_in_numeric = [5; 6; 7; 8; 9; 10] /\ length gen_in_fields = 13%nat /\
@@ -132,5 +147,7 @@ Print Assumptions C11_num11_exact_double.
 Print Assumptions C11_crypto_fee_split.
 Print Assumptions C11_crypto_fee_cost_basis.
 Print Assumptions C11_fee_disposal_constructs.
+Print Assumptions C11_dust_split_refuted.
+Print Assumptions C11_split_succeeds.
 Print Assumptions C11_source_tables.
 Print Assumptions C11_nonvacuous.
